@@ -470,7 +470,7 @@ func readDnsMsgFromBufio(reader *bufio.Reader, timeout time.Duration, conn net.C
 	}
 
 	// Now read and consume the full message (length prefix + data)
-	fullData, err := reader.Peek(int(2 + length))
+	fullData, err := reader.Peek(2 + int(length))
 	if err != nil {
 		return nil, 0, err
 	}
@@ -483,12 +483,12 @@ func readDnsMsgFromBufio(reader *bufio.Reader, timeout time.Duration, conn net.C
 	}
 
 	// Consume the data by discarding it
-	_, err = reader.Discard(int(2 + length))
+	_, err = reader.Discard(2 + int(length))
 	if err != nil {
 		return nil, 0, err
 	}
 
-	return &msg, int(2 + length), nil
+	return &msg, 2 + int(length), nil
 }
 
 // bufioConn wraps a net.Conn with a bufio.Reader, allowing buffered data
